@@ -19,10 +19,14 @@ var (
 	allClasses  []class // every class (arity-1 sweep, star sweep)
 	starClasses []class // all classes except most per-charset ones (one hostile position, pivots elsewhere)
 	coreClasses []class // reduced set for full pair products
-	miniClasses []class // smaller still, for triple products and OVER forms
+	miniClasses []class // smaller still, for OVER forms and quick pair products
+	tinyClasses []class // ten maximally different classes, for triple products
 	strClasses  []class // string-valued operands for the collation generator
 	charsets    []string
+	implCS      []string        // character sets with an encoder
+	unimplCS    = map[string]bool{} // character sets the engine lists but has no encoder for
 	collations  []string
+	mixClasses  []class // all non-column classes minus the per-charset classes of unimplemented character sets (they all fail at one site)
 )
 
 func lit(name, sqltext string) class { return class{Name: name, SQL: sqltext} }
@@ -48,6 +52,14 @@ func init() {
 	}
 	sort.Strings(collations)
 	sort.Strings(charsets)
+	for _, cs := range charsets {
+		id, err := sql.ParseCharacterSet(cs)
+		if err != nil || id.Encoder() == nil {
+			unimplCS[cs] = true
+		} else {
+			implCS = append(implCS, cs)
+		}
+	}
 
 	cl := []class{
 		core_("null", "NULL"),
@@ -104,6 +116,18 @@ func init() {
 		cl = append(cl, lit("csx_"+cs, "CONVERT(X'61E697' USING "+cs+")"))
 	}
 	allClasses = cl
+	for _, c := range cl {
+		if c.Col || c.Name == "star" || c.Name == "distinct1" || c.Name == "s_repeat64k" {
+			continue
+		}
+		if strings.HasPrefix(c.Name, "cs_") && unimplCS[c.Name[3:]] && c.Name != "cs_ujis" {
+			continue
+		}
+		if strings.HasPrefix(c.Name, "csx_") && unimplCS[c.Name[4:]] {
+			continue
+		}
+		mixClasses = append(mixClasses, c)
+	}
 	keepCS := map[string]bool{"latin1": true, "utf16": true, "utf32": true, "ascii": true, "binary": true, "sjis": true, "ucs2": true, "cp1256": true}
 	for _, c := range cl {
 		if strings.HasPrefix(c.Name, "cs_") && !keepCS[c.Name[3:]] {
@@ -123,6 +147,13 @@ func init() {
 		for _, c := range cl {
 			if c.Name == n {
 				miniClasses = append(miniClasses, c)
+			}
+		}
+	}
+	for _, n := range []string{"null", "neg1", "u64max", "dec65", "s_empty", "s_abc", "x_ff", "j_obj", "g_pt", "tuple"} {
+		for _, c := range cl {
+			if c.Name == n {
+				tinyClasses = append(tinyClasses, c)
 			}
 		}
 	}
